@@ -127,6 +127,25 @@ Theorem C16_names_unique_within_call : forall s defs boxes ret,
   /\ NoDup (created_names (next_id s) (convert_defs (reserve s defs) (next_id s) defs)).
 Proof. exact accepted_call_names_distinct. Qed.
 
+(* (iii) hence, over histories of ACCEPTED calls (history_ok: no call returned
+   Err, scripts closed), clause 3 needs freshness of a definition's type name
+   only against the state BEFORE its call (prefresh_history): whatever happens
+   inside a call -- titled sub-schemas, derived inline names, case variants --
+   cannot produce a second definition of a name any more.  The remaining
+   exclusion is exactly finding C16-1 (a name an EARLIER call registered). *)
+Theorem C16_names_unique_accepted_histories : forall h,
+  history_ok empty h -> prefresh_history empty h -> NoDup (def_names (run_history empty h)).
+Proof.
+  intros h Hok Hpf. destruct Bnd_empty as [HB HD].
+  exact (names_unique_accepted h empty NInv_empty HB HD Hok Hpf).
+Qed.
+
+Example C16_prefresh_satisfiable : prefresh_history empty ex_history.
+Proof.
+  cbn [prefresh_history ex_history]. repeat split;
+    intros df n tb Hin E; repeat (destruct Hin as [<-|Hin]; [inversion E; subst; reflexivity|]); destruct Hin.
+Qed.
+
 (* a rejected call is not rolled back: the entries stay and are rendered
    (class C16-4, state after a failed batch) *)
 Theorem C16_names_unique_after_rejected_batch_refuted :
